@@ -27,7 +27,7 @@ def selsSpreadFree : List Sel → Bool
   | s :: ss => selSpreadFree s && selsSpreadFree ss
 end
 
-theorem selsSpreadFree_append (a b : List Sel) : selsSpreadFree (a ++ b) = (selsSpreadFree a && selsSpreadFree b) := by
+private theorem selsSpreadFree_append (a b : List Sel) : selsSpreadFree (a ++ b) = (selsSpreadFree a && selsSpreadFree b) := by
   induction a with
   | nil => simp [selsSpreadFree]
   | cons x xs ih => simp [selsSpreadFree, ih, Bool.and_assoc]
@@ -35,7 +35,7 @@ theorem selsSpreadFree_append (a b : List Sel) : selsSpreadFree (a ++ b) = (sels
 /-- every collected node has spread-free sub-selections -/
 def NodesFree (g : Grouped) : Prop := ∀ kv ∈ g, ∀ n ∈ kv.2, selsSpreadFree n.sub = true
 
-theorem extend_nodesFree (g : Grouped) (k : String) (ns : List FNode) (hg : NodesFree g)
+private theorem extend_nodesFree (g : Grouped) (k : String) (ns : List FNode) (hg : NodesFree g)
     (hn : ∀ n ∈ ns, selsSpreadFree n.sub = true) : NodesFree (g.extend k ns) := by
   induction g with
   | nil => intro kv hkv n hn'; simp [Grouped.extend] at hkv; subst hkv; exact hn n hn'
@@ -61,7 +61,7 @@ theorem extend_nodesFree (g : Grouped) (k : String) (ns : List FNode) (hg : Node
       · exact hg (k', ms) (by simp) n hn'
       · exact ih (fun kv hkv => hg kv (by simp [hkv])) kv hkv n hn'
 
-theorem mergeInto_nodesFree (src into : Grouped) (hs : NodesFree src) (hi : NodesFree into) : NodesFree (src.mergeInto into) := by
+private theorem mergeInto_nodesFree (src into : Grouped) (hs : NodesFree src) (hi : NodesFree into) : NodesFree (src.mergeInto into) := by
   unfold Grouped.mergeInto
   induction src generalizing into with
   | nil => simpa
@@ -140,7 +140,7 @@ private theorem collect_agree (s : SchemaD) (doc : Doc) (vars : Vars) (fuel : Na
     simp only [collectFields, collectFieldsS]
     exact collectStep_agree s doc vars _ _ ih obj sels seen [] hsf (by intro kv h; simp at h)
 
-theorem mergedSelections_free (nodes : List FNode) (h : ∀ n ∈ nodes, selsSpreadFree n.sub = true) :
+private theorem mergedSelections_free (nodes : List FNode) (h : ∀ n ∈ nodes, selsSpreadFree n.sub = true) :
     selsSpreadFree (mergedSelections nodes) = true := by
   induction nodes with
   | nil => simp [mergedSelections, selsSpreadFree]
